@@ -1,4 +1,6 @@
 use vstd::prelude::*;
+use std::ops::*;
+use vstd::arithmetic::power::*;
 use vstd::arithmetic::div_mod::*;
 use vstd::arithmetic::mul::*;
 verus! {
@@ -41,7 +43,40 @@ proof fn lemma_step_bound(a: int, b: int, x: int, y: int, k: int, m: int)
     assert((y <= 0 && 0 <= x - k * y) || (x - k * y <= 0 && 0 <= y)) by(nonlinear_arith) requires k >= 0, (x <= 0 && 0 <= y) || (y <= 0 && 0 <= x);
     assert(k * a >= 0) by(nonlinear_arith) requires k >= 0, a >= 1;
 }
+
+// one square-and-multiply step preserves  r * a^d  (mod m)
+proof fn lemma_pow_step(r: int, a: int, d: nat, m: int)
+    requires m >= 2, d > 0
+    ensures
+        d % 2 == 1 ==> (((r * a) % m) * pow((a * a) % m, d / 2)) % m == (r * pow(a, d)) % m,
+        d % 2 == 0 ==> (r * pow((a * a) % m, d / 2)) % m == (r * pow(a, d)) % m,
+{
+    let h = d / 2;
+    // pow(a*a, h) == pow(a, 2h)
+    lemma_pow_multiplies(a, 2, h);
+    lemma_pow1(a); lemma_pow_adds(a, 1, 1);
+    assert(pow(a, 2) == a * a);
+    // pow((a*a) % m, h) % m == pow(a*a, h) % m
+    lemma_pow_mod_noop(a * a, h, m);
+    let x = pow(a * a, h); let y = pow((a * a) % m, h);
+    assert(y % m == x % m);
+    if d % 2 == 1 {
+        assert(d == 2 * h + 1);
+        lemma_pow_adds(a, 1, 2 * h);
+        assert(pow(a, d) == a * pow(a, 2 * h));
+        // ((r*a)%m * y) % m == (r*a*x) % m
+        lemma_mul_mod_noop_general(r * a, y, m);
+        lemma_mul_mod_noop_general(r * a, x, m);
+        assert((r * a) * x == r * (a * x)) by(nonlinear_arith);
+    } else {
+        assert(d == 2 * h);
+        lemma_mul_mod_noop_general(r, y, m);
+        lemma_mul_mod_noop_general(r, x, m);
+    }
+}
 impl<const M: u32> Modular<M> {
+    pub const ZERO: Self = Self { v: 0 };
+    pub const ONE: Self = Self { v: 1 };
     pub open spec fn wf(self) -> bool { self.v < M }
 
     pub fn new(v: i64) -> (r: Self)
@@ -127,6 +162,112 @@ impl<const M: u32> Modular<M> {
             }
         }
         r
+    }
+
+    pub fn md() -> (r: u32) ensures r == M {
+        M
+    }
+
+    pub fn pow(&self, mut d: u64) -> (r: Self)
+        requires self.wf(), okm::<M>(),
+        ensures r.wf(), r.v as int == pow(self.v as int, d as nat) % (M as int),
+    {
+        let mut res = Self::ONE;
+        let mut a = *self;
+        let ghost m = M as int; let ghost b = self.v as int; let ghost d0 = d;
+        proof { lemma_pow0(b); lemma_small_mod(1, m as nat); }
+        while d != 0
+            invariant a.wf(), res.wf(), okm::<M>(), m == M as int,
+                // res * a^d == b^d0   (mod M)
+                (res.v * pow(a.v as int, d as nat)) % m == pow(b, d0 as nat) % m,
+            decreases d,
+        {
+            proof { lemma_pow_step(res.v as int, a.v as int, d as nat, m); }
+            if d % 2 == 1 {
+                res *= a;
+            }
+            a *= a;
+            d /= 2;
+        }
+        proof { lemma_pow0(a.v as int); lemma_small_mod(res.v as nat, m as nat); assert(res.v * 1 == res.v) by(nonlinear_arith); }
+        res
+    }
+}
+
+pub open spec fn okm<const M: u32>() -> bool { 2 <= M < 0x8000_0000 }
+pub open spec fn mk<const M: u32>(x: int) -> Modular<M> { Modular { v: (x % (M as int)) as u32 } }
+
+impl<const M: u32> vstd::std_specs::ops::AddSpecImpl for Modular<M> {
+    open spec fn obeys_add_spec() -> bool { true }
+    open spec fn add_req(self, rhs: Self) -> bool { self.wf() && rhs.wf() && okm::<M>() }
+    open spec fn add_spec(self, rhs: Self) -> Self { mk::<M>(self.v + rhs.v) }
+}
+impl<const M: u32> Add for Modular<M> {
+    type Output = Self;
+    fn add(self, rhs: Self) -> Self {
+        proof { let m = M as int; let t = self.v + rhs.v;
+            if t >= m { lemma_fundamental_div_mod_converse(t, m, 1, t - m); } else { lemma_small_mod(t as nat, m as nat); } }
+        let mut v = self.v + rhs.v;
+        if v >= M {
+            v -= M;
+        }
+        Self { v }
+    }
+}
+impl<const M: u32> vstd::std_specs::ops::SubSpecImpl for Modular<M> {
+    open spec fn obeys_sub_spec() -> bool { true }
+    open spec fn sub_req(self, rhs: Self) -> bool { self.wf() && rhs.wf() && okm::<M>() }
+    open spec fn sub_spec(self, rhs: Self) -> Self { mk::<M>(self.v - rhs.v) }
+}
+impl<const M: u32> Sub for Modular<M> {
+    type Output = Self;
+    fn sub(self, rhs: Self) -> Self {
+        proof { let m = M as int; let t = self.v - rhs.v;
+            if t >= 0 { lemma_small_mod(t as nat, m as nat); } else { lemma_fundamental_div_mod_converse(t, m, -1, t + m); } }
+        let mut v = self.v + Self::md() - rhs.v;
+        if v >= M {
+            v -= M;
+        }
+        Self { v }
+    }
+}
+impl<const M: u32> vstd::std_specs::ops::MulSpecImpl for Modular<M> {
+    open spec fn obeys_mul_spec() -> bool { true }
+    open spec fn mul_req(self, rhs: Self) -> bool { self.wf() && rhs.wf() && okm::<M>() }
+    open spec fn mul_spec(self, rhs: Self) -> Self { mk::<M>(self.v * rhs.v) }
+}
+impl<const M: u32> Mul for Modular<M> {
+    type Output = Self;
+    fn mul(self, rhs: Self) -> Self {
+        proof { assert(0 <= self.v * rhs.v < 0x8000_0000 * 0x8000_0000) by(nonlinear_arith) requires self.v < 0x8000_0000, rhs.v < 0x8000_0000; }
+        Self::new(self.v as i64 * rhs.v as i64)
+    }
+}
+impl<const M: u32> vstd::std_specs::ops::NegSpecImpl for Modular<M> {
+    open spec fn obeys_neg_spec() -> bool { true }
+    open spec fn neg_req(self) -> bool { self.wf() && okm::<M>() }
+    open spec fn neg_spec(self) -> Self { mk::<M>(-(self.v as int)) }
+}
+impl<const M: u32> Neg for Modular<M> {
+    type Output = Self;
+    fn neg(self) -> Self {
+        proof { let m = M as int; let t = -(self.v as int);
+            if t == 0 { lemma_small_mod(0, m as nat); } else { lemma_fundamental_div_mod_converse(t, m, -1, t + m); } }
+        if self.v == 0 {
+            self
+        } else {
+            Self { v: Self::md() - self.v }
+        }
+    }
+}
+impl<const M: u32> vstd::std_specs::ops::MulAssignSpecImpl for Modular<M> {
+    open spec fn obeys_mul_assign_spec() -> bool { true }
+    open spec fn mul_assign_req(self, rhs: Self) -> bool { self.wf() && rhs.wf() && okm::<M>() }
+    open spec fn mul_assign_spec(self, rhs: Self) -> Self { mk::<M>(self.v * rhs.v) }
+}
+impl<const M: u32> MulAssign for Modular<M> {
+    fn mul_assign(&mut self, rhs: Self) {
+        *self = *self * rhs;
     }
 }
 } // verus!
